@@ -1,4 +1,5 @@
-"""Fail step: raises vfail.err(vfail.msg) when vfail.when is absent or true."""
+"""Fail step: raises vfail.err(vfail.msg) when vfail.when is absent or true.  With vfail.cached: k
+the error is ONE pre-built object per k (msg taken as is), raised again by every failure."""
 import vstate
 
 
@@ -19,6 +20,11 @@ def run_step(context):
         go = context.get_formatted_as_type(cfg['when'], out_type=bool)
     else:
         go = True
+    if go and 'cached' in cfg:
+        k = cfg['cached']
+        if k not in vstate.CACHED:
+            vstate.CACHED[k] = vstate.error_class(cfg['err'])(cfg['msg'])
+        raise vstate.CACHED[k]
     if go:
         msg = context.get_formatted_value(cfg['msg'])
         raise vstate.error_class(cfg['err'])(msg)
